@@ -446,7 +446,7 @@ func vfCall[T any](d time.Duration, f func() (T, error)) (v T, err error, hung b
 	}
 }
 
-const vfWatchdog = 20 * time.Second
+const vfWatchdog = 8 * time.Second
 
 // ---------------------------------------------------------------- the runner
 
@@ -1005,8 +1005,14 @@ func (r *vfRunner) exec(st vfStep) (string, *vfViol) {
 		if !auth {
 			r.stats.unauthorized.Add(1)
 		}
+		hasIdx := false
+		for _, ch := range chans {
+			if ch != "F" && vfIsIdx(ch) {
+				hasIdx = true
+			}
+		}
 		for _, t := range a.Times {
-			if e := r.c.ts(t) + 1; e > ws.maxEnd {
+			if e := r.c.ts(t) + 1; hasIdx && e > ws.maxEnd {
 				ws.maxEnd = e
 			}
 		}
@@ -1040,7 +1046,7 @@ func (r *vfRunner) exec(st vfStep) (string, *vfViol) {
 		}
 		r.cl.rec.add(vfEvent{Ev: "commit.ret", W: a.W, Seq: ws.seq})
 		if end != ws.maxEnd && ws.maxEnd != 0 {
-			r.stats.lastEndNotMax.Add(1) // observed only: the synchronizer forwards the last response
+			r.stats.lastEndNotMax.Add(1) // observed only (not stated): End is not the latest commit end over the leaseholders
 		}
 		return "ok", nil
 	case "close":
